@@ -505,3 +505,48 @@ Print Assumptions C03_length_negative_type_list_refuted.
 Theorem C03_length_negative_hypotheses_satisfiable : string_only (length_request_type None) = true.
 Proof. exact length_negative_absent_type_is_string_only. Qed.
 Print Assumptions C03_length_negative_hypotheses_satisfiable.
+
+(* ---- magnitude: the integer kernel of the Minimum value is exact for integers of ANY size ---- *)
+
+(* for every lower bound y and every positive step x (no bound on their size) the kernel returns the least multiple
+   of x that is at least y: y <= r < y + x and r mod x = 0 *)
+Theorem C03_closest_multiple_is_least_multiple_at_least :
+  forall y x, 0 < x -> least_multiple_at_least y x (closest_multiple_greater_than y x) = true.
+Proof. exact cmgt_least_multiple. Qed.
+Print Assumptions C03_closest_multiple_is_least_multiple_at_least.
+
+(* and it is the only such number: any kernel that meets the specification equals this one, at every magnitude *)
+Theorem C03_closest_multiple_characterised :
+  forall y x r, 0 < x -> (least_multiple_at_least y x r = true <-> r = closest_multiple_greater_than y x).
+Proof. exact cmgt_characterised. Qed.
+Print Assumptions C03_closest_multiple_characterised.
+
+(* the Minimum value and the Near-boundary value one step above it are multiples at or above the lower bound *)
+Theorem C03_minimum_value_valid_at_any_magnitude :
+  forall minimum m, 0 < m ->
+    let v := closest_multiple_greater_than minimum m in minimum <= v /\ v mod m = 0 /\ (v + m) mod m = 0.
+Proof. exact cmgt_minimum_value_valid. Qed.
+Print Assumptions C03_minimum_value_valid_at_any_magnitude.
+
+(* sentinel: the same kernel through true (binary64) division, x * ceil(y / x): above 2^53 the quotient is rounded
+   before the ceil and the result falls BELOW the lower bound (2^53 + 1 step 1; 10^18 + 1 step 10; 2^63 - 1 step 3)
+   or far above it (- 2^63 + 1 step 3), where the exact kernel is right *)
+Theorem C03_closest_multiple_float53_refuted :
+  closest_multiple_float53 (2 ^ 53 + 1) 1 = 2 ^ 53
+  /\ closest_multiple_float53 1000000000000000001 10 = 1000000000000000000
+  /\ closest_multiple_float53 (2 ^ 63 - 1) 3 = 2 ^ 63 - 512
+  /\ closest_multiple_float53 (- (2 ^ 63) + 1) 3 = - (2 ^ 63) + 512
+  /\ least_multiple_at_least (2 ^ 53 + 1) 1 (closest_multiple_float53 (2 ^ 53 + 1) 1) = false
+  /\ least_multiple_at_least 1000000000000000001 10 (closest_multiple_float53 1000000000000000001 10) = false
+  /\ closest_multiple_greater_than (2 ^ 53 + 1) 1 = 2 ^ 53 + 1
+  /\ closest_multiple_greater_than 1000000000000000001 10 = 1000000000000000010.
+Proof. exact float53_refuted. Qed.
+Print Assumptions C03_closest_multiple_float53_refuted.
+
+(* the sentinel differs only at large magnitudes: equal on -400..400 x 1..60 and on the 41 integers just below
+   2^53 / just above -2^53 with the steps 1, 3, 10, 2^20 (bounds in the statement, closed by computation) *)
+Theorem C03_closest_multiple_float53_agrees_small :
+  float53_agrees_on (zrange (-400) 801) (zrange 1 60) = true
+  /\ float53_agrees_on (zrange (2 ^ 53 - 40) 41 ++ zrange (- (2 ^ 53)) 41) [1; 3; 10; 1048576] = true.
+Proof. split; [exact float53_agrees_small_grid | exact float53_agrees_below_2_53]. Qed.
+Print Assumptions C03_closest_multiple_float53_agrees_small.
